@@ -46,6 +46,7 @@ type Request struct {
 
 	isMultiPart              bool
 	clientFormDataMerged     bool
+	clientMerged             clientMergedSettings
 	disableAutoReadResponse  bool
 	forceChunkedEncoding     bool
 	isSaveResponse           bool
@@ -660,7 +661,60 @@ func (r *Request) Do(ctx ...context.Context) *Response {
 	return resp
 }
 
+// clientMergedSettings records which client-level settings the last execution wrote into the
+// Request, so that sending the same Request again merges the client's settings of that moment
+// afresh instead of on top of them (cookies and form values twice, stale header values).
+type clientMergedSettings struct {
+	headers   map[string][]string // key -> the copy parseRequestHeader stored in Headers
+	cookies   []*http.Cookie      // the client cookies parseRequestCookie appended ...
+	cookiesAt int                 // ... at this index of Cookies
+	form      urlpkg.Values       // the client form values parseRequestBody added ...
+	formAt    map[string]int      // ... per key at this index of FormData[key]
+}
+
+// unmergeClientSettings takes back what the previous execution merged from the client, as far
+// as it is still in place untouched (what the caller has changed since is request-level).
+func (r *Request) unmergeClientSettings() {
+	m := r.clientMerged
+	r.clientMerged = clientMergedSettings{}
+	r.clientFormDataMerged = false
+	r.RetryAttempt = 0
+	for k, vs := range m.headers {
+		if cur := r.Headers[k]; len(vs) > 0 && len(cur) == len(vs) && &cur[0] == &vs[0] {
+			delete(r.Headers, k)
+		}
+	}
+	if n := len(m.cookies); n > 0 && m.cookiesAt+n <= len(r.Cookies) {
+		same := true
+		for i, ck := range m.cookies {
+			same = same && r.Cookies[m.cookiesAt+i] == ck
+		}
+		if same {
+			r.Cookies = append(r.Cookies[:m.cookiesAt:m.cookiesAt], r.Cookies[m.cookiesAt+n:]...)
+		}
+	}
+	for k, vs := range m.form {
+		cur, at := r.FormData[k], m.formAt[k]
+		if at+len(vs) > len(cur) {
+			continue
+		}
+		same := true
+		for i, v := range vs {
+			same = same && cur[at+i] == v
+		}
+		if !same {
+			continue
+		}
+		if rest := append(cur[:at:at], cur[at+len(vs):]...); len(rest) > 0 {
+			r.FormData[k] = rest
+		} else {
+			delete(r.FormData, k)
+		}
+	}
+}
+
 func (r *Request) do() (resp *Response, err error) {
+	r.unmergeClientSettings()
 	defer func() {
 		if resp == nil {
 			resp = &Response{Request: r}
